@@ -28,8 +28,9 @@ PROPERTY = "C17"
 LEVEL = "fault_enumeration"
 RULE = (
     "case = (TLS version 1.2|1.3, standard_compatible, message-size sequence per direction "
-    "from 0 B to 3 records, receive sizes, wire chunk policy per direction pass|1byte|random|"
-    "coalesce, cut point: none | ciphertext byte offset c in one direction). For the small "
+    "from 0 B to 9 records (up to 140000 B in one send), receive sizes, wire chunk policy per "
+    "direction pass|1byte|random|coalesce, transport send latency 1-4 cycles with a one-sender "
+    "guard like SocketStream's, cut point: none | ciphertext byte offset c in one direction). For the small "
     "base session the cut offset is enumerated over EVERY ciphertext byte of both "
     "directions (thorough; quick: every 2nd offset plus the first/last offsets); larger "
     "sessions and chunkings are seeded. Non-trivial = the transport was cut, or a chunk "
@@ -78,13 +79,14 @@ def pattern(direction: int, start: int, n: int) -> bytes:
 
 def execute(case: dict) -> dict:
     import anyio
-    from anyio import BrokenResourceError, ClosedResourceError, EndOfStream, create_task_group
+    from anyio import (BrokenResourceError, BusyResourceError, ClosedResourceError, EndOfStream,
+                       create_task_group)  # fmt: skip
     from anyio.abc import ByteStream
     from anyio.streams.tls import TLSStream
 
     viol: list = []
     out: dict = {"viol": viol, "windows": {}, "nontrivial": False}
-    obs: dict = {"sent_cipher": [0, 0], "events": []}
+    obs: dict = {"sent_cipher": [0, 0], "events": [], "concurrent_transport_send": 0}
     rng = random.Random(case.get("seed", 0))
 
     def window(name: str, n: int = 1) -> None:
@@ -146,13 +148,29 @@ def execute(case: dict) -> dict:
         def __init__(self, out_wire: Wire, in_wire: Wire) -> None:
             self.o, self.i = out_wire, in_wire
             self.closed = False
+            self.sending = False
+            self.nsend = 0
 
         async def send(self, item: bytes) -> None:
             if self.closed:
                 raise ClosedResourceError
 
-            await anyio.sleep(0)
-            self.o.put(bytes(item))
+            # like anyio's own SocketStream: one sender at a time (its ResourceGuard), and
+            # a send may stay suspended for a few cycles (back-pressure)
+            if self.sending:
+                obs["concurrent_transport_send"] += 1
+                raise BusyResourceError("sending")
+
+            self.sending = True
+            try:
+                lat = case.get("send_lat") or [0]
+                self.nsend += 1
+                for _ in range(1 + lat[self.nsend % len(lat)]):
+                    await anyio.sleep(0)
+
+                self.o.put(bytes(item))
+            finally:
+                self.sending = False
 
         async def receive(self, max_bytes: int = 65536) -> bytes:
             if self.closed:
@@ -385,7 +403,7 @@ def all_cases(tier: str, seed: int):  # noqa: ANN201
                     d = rng.randrange(2)
                     yield base_case(ver, compat, pol, [d, rng.randrange(0, lens[d] + 1)])
 
-    sizes_pool = [0, 1, 2, 100, 1000, 16383, 16384, 16385, 20000, 40000]
+    sizes_pool = [0, 1, 2, 100, 1000, 16383, 16384, 16385, 20000, 40000, 70000, 140000]
     for _ in range(900 if tier == "thorough" else 60):
         ver = rng.choice(["1.2", "1.3"])
         sizes = [[rng.choice(sizes_pool) for _ in range(rng.randint(0, 4))] for _ in range(2)]
@@ -394,7 +412,8 @@ def all_cases(tier: str, seed: int):  # noqa: ANN201
                 "sizes": sizes, "rsizes": [[rng.choice([1, 7, 100, 5000, 65536]) for _ in range(2)]
                                            for _ in range(2)],
                 "closer": rng.choice(["client", "server"]), "cut": None,
-                "seed": rng.randrange(1 << 30)}  # fmt: skip
+                "seed": rng.randrange(1 << 30),
+                "send_lat": [rng.choice([0, 0, 1, 2, 3]) for _ in range(5)]}  # fmt: skip
         if sum(map(sum, sizes)) > 30000 and "1byte" in case["policy"]:
             case["policy"] = ["random", "random"]
 
